@@ -508,3 +508,35 @@ def c31(tier, seed):
             sc["name"] = "C31-" + sc["name"]
             out.append(sc)
     return out
+
+
+# ---------------------------------------------------------------------------------------------
+def c32(tier, seed):
+    """WaitSet::wait against status changes and set_enabled_statuses while it is blocked"""
+    rng = random.Random(seed)
+    out = []
+    n = 30 if tier == "quick" else 400
+    for k in range(n):
+        steps = setup(q(), [q()]) + [{"do": "sleep", "ms": 100}, {"do": "sub_status", "r": 0}]
+        mode = ["data", "enable_after_change", "never", "already", "match"][k % 5]
+        ms = rng.choice([400, 1000])
+        at = rng.choice([0, 30, 120, 300])
+        if mode == "data":
+            w = {"do": "wait_set", "r": 0, "enabled": ["DataAvailable"], "ms": ms,
+                 "during": [{"at_ms": at, "do": "write", "w": 0, "i": 1, "len": 8}, {"at_ms": at + 20, "do": "trigger_obs"}]}
+        elif mode == "enable_after_change":
+            w = {"do": "wait_set", "r": 0, "enabled": ["RequestedDeadlineMissed"], "ms": ms,
+                 "during": [{"at_ms": at, "do": "write", "w": 0, "i": 1, "len": 8}, {"at_ms": at + 20, "do": "trigger_obs"},
+                            {"at_ms": at + 60, "do": "set_enabled", "enabled": ["DataAvailable"]}]}
+        elif mode == "never":
+            w = {"do": "wait_set", "r": 0, "enabled": ["SampleRejected"], "ms": 300,
+                 "during": [{"at_ms": at, "do": "write", "w": 0, "i": 1, "len": 8}, {"at_ms": at + 20, "do": "trigger_obs"}]}
+        elif mode == "already":
+            steps += [{"do": "write", "w": 0, "i": 1, "len": 8}, {"do": "sleep", "ms": 50}]
+            w = {"do": "wait_set", "r": 0, "enabled": ["DataAvailable"], "ms": ms}
+        else:
+            w = {"do": "wait_set", "r": 0, "enabled": ["SubscriptionMatched"], "ms": ms,
+                 "during": [{"at_ms": at, "do": "create_writer", "part": 0, "qos": q()}, {"at_ms": at + 100, "do": "trigger_obs"}]}
+        steps += [w, {"do": "final"}]
+        out.append({"name": f"C32-{mode}-{k}", "family": mode, "seed": seed * 61 + k, "frag": 1344, "steps": steps})
+    return out
